@@ -1,6 +1,234 @@
-//! C04: implementation-side case runners (see props/c04.py). Stub until the property is built.
+//! C04: ANSI writer / loader round trip through the public API (see props/c04.py).
+//!
+//! Case format (all kinds):  <kind> <bits> <prep> <cc> <ice> <w> <h> <pal> <cells>
+//!   bits  save-option bits: 1 compress, 2 use_cursor_forward, 4 use_repeat_sequences, 8 preserve_line_length,
+//!         16 longer_terminal_output, 32 use_extended_colors, 64 save_sauce, 128 lossles_output,
+//!         256 normalize_whitespaces
+//!   prep  0 None, 1 ClearScreen, 2 Home          cc  0 Ignore, 1 IcyTerm, 2 FilterOut
+//!   ice   0 Unlimited, 1 Blink, 2 Ice  (IceMode::to_byte numbering)
+//!   pal   hex, 3 bytes per palette entry, the COMPLETE palette of the buffer (`-` = keep the DOS default)
+//!   cells hex, 7 bytes per cell row-major: ch, fg (u16 BE), bg (u16 BE), attr flags (u16 BE)
+//! Kinds:
+//!   c04wr   -> the bytes `Buffer::to_bytes("ans", opts)` wrote
+//!   c04rt   -> [nbytes, bytes…, width, height, ice, then per cell of the RELOADED buffer: ch, shown fg rgb, bg rgb, blink]
+//!   c04ld   -> (args: <w> <h> <hexbytes>) the same observation for `Buffer::from_bytes("x.ans", bytes)` alone
+//!   c04shapes / c04num <digits>  -> leaf ties (glyph shapes of the default font, parse_next_number)
+//!   c04chk  -> the property's oracle evaluated here: [mismatches, width_src, height_src, width_dst, height_dst, nbytes,
+//!              the first three bytes of the file (-1 when shorter), then for the first mismatch:
+//!              x, y, src ch, fg, bg, blink, dst ch, fg, bg, blink]
+//! "shown fg" = palette colour of fg (+8 when the bold flag is set and fg < 8, as Buffer::render_to_rgba does),
+//! colours are packed r<<16|g<<8|b, everything is read with Buffer::get_char (what the screen shows).
+use crate::util::{int, unhex};
 use crate::Obs;
+use icy_engine::{AttributedChar, Buffer, Color, ControlCharHandling, IceMode, SaveOptions, ScreenPreperation, TextAttribute, TextPane};
+use std::path::Path;
 
-pub fn run(_kind: &str, _args: &[&str]) -> Option<Obs> {
-    None
+fn options(bits: i64, prep: &str, cc: &str) -> SaveOptions {
+    let mut o = SaveOptions::new();
+    o.compress = bits & 1 != 0;
+    o.use_cursor_forward = bits & 2 != 0;
+    o.use_repeat_sequences = bits & 4 != 0;
+    o.preserve_line_length = bits & 8 != 0;
+    o.longer_terminal_output = bits & 16 != 0;
+    o.use_extended_colors = bits & 32 != 0;
+    o.save_sauce = bits & 64 != 0;
+    o.lossles_output = bits & 128 != 0;
+    o.normalize_whitespaces = bits & 256 != 0;
+    o.modern_terminal_output = false;
+    o.output_line_length = None;
+    o.skip_lines = None;
+    o.screen_preparation = match prep {
+        "0" => ScreenPreperation::None,
+        "1" => ScreenPreperation::ClearScreen,
+        "2" => ScreenPreperation::Home,
+        _ => panic!("bad prep"),
+    };
+    o.control_char_handling = match cc {
+        "0" => ControlCharHandling::Ignore,
+        "1" => ControlCharHandling::IcyTerm,
+        "2" => ControlCharHandling::FilterOut,
+        _ => panic!("bad cc"),
+    };
+    o
+}
+
+fn ice(s: &str) -> IceMode {
+    match s {
+        "0" => IceMode::Unlimited,
+        "1" => IceMode::Blink,
+        "2" => IceMode::Ice,
+        _ => panic!("bad ice"),
+    }
+}
+
+fn build(args: &[&str]) -> (Buffer, SaveOptions) {
+    let o = options(int(args[0]), args[1], args[2]);
+    let (w, h) = (int(args[4]) as i32, int(args[5]) as i32);
+    let mut buf = Buffer::new((w, h));
+    buf.ice_mode = ice(args[3]);
+    let pal = unhex(args[6]);
+    if !pal.is_empty() {
+        buf.palette.clear();
+        for (i, c) in pal.chunks(3).enumerate() {
+            buf.palette.set_color(i as u32, Color::new(c[0], c[1], c[2]));
+        }
+    }
+    let cells = unhex(args[7]);
+    for (i, c) in cells.chunks(7).enumerate() {
+        let (x, y) = (i as i32 % w, i as i32 / w);
+        let fg = ((c[1] as u32) << 8) | c[2] as u32;
+        let bg = ((c[3] as u32) << 8) | c[4] as u32;
+        let mut a = TextAttribute::new(fg, bg);
+        a.attr = ((c[5] as u16) << 8) | c[6] as u16;
+        buf.layers[0].set_char((x, y), AttributedChar::new(c[0] as char, a));
+    }
+    (buf, o)
+}
+
+fn pack(c: (u8, u8, u8)) -> i64 {
+    ((c.0 as i64) << 16) | ((c.1 as i64) << 8) | c.2 as i64
+}
+
+/// what one cell shows: character code, displayed foreground, background, blink flag
+fn shown(buf: &Buffer, x: i32, y: i32) -> [i64; 4] {
+    let ch = buf.get_char((x, y));
+    let a = ch.attribute;
+    let mut fg = a.get_foreground();
+    if a.is_bold() && fg < 8 {
+        fg += 8;
+    }
+    [ch.ch as i64, pack(buf.palette.get_rgb(fg)), pack(buf.palette.get_rgb(a.get_background())), a.is_blinking() as i64]
+}
+
+fn ice_byte(m: IceMode) -> i64 {
+    match m {
+        IceMode::Unlimited => 0,
+        IceMode::Blink => 1,
+        IceMode::Ice => 2,
+    }
+}
+
+fn obs_loaded(v: &mut Vec<i64>, b: &Buffer) {
+    v.push(b.get_width() as i64);
+    v.push(b.get_height() as i64);
+    v.push(ice_byte(b.ice_mode));
+    for y in 0..b.get_height() {
+        for x in 0..b.get_width() {
+            v.extend(shown(b, x, y));
+        }
+    }
+}
+
+fn blank(c: i64) -> bool {
+    c == 0 || c == 32 || c == 255
+}
+
+pub fn run(kind: &str, args: &[&str]) -> Option<Obs> {
+    let mut v: Vec<i64> = Vec::new();
+    match kind {
+        "c04wr" => {
+            let (buf, o) = build(args);
+            match buf.to_bytes("ans", &o) {
+                Ok(bytes) => v.extend(bytes.iter().map(|b| *b as i64)),
+                Err(e) => return Some(Err(format!("save:{e}"))),
+            }
+        }
+        "c04rt" => {
+            let (buf, o) = build(args);
+            let bytes = match buf.to_bytes("ans", &o) {
+                Ok(b) => b,
+                Err(e) => return Some(Err(format!("save:{e}"))),
+            };
+            v.push(bytes.len() as i64);
+            v.extend(bytes.iter().map(|b| *b as i64));
+            match Buffer::from_bytes(Path::new("x.ans"), true, &bytes) {
+                Ok(b) => obs_loaded(&mut v, &b),
+                Err(e) => return Some(Err(format!("load:{e}"))),
+            }
+        }
+        "c04ld" => {
+            let bytes = unhex(args[0]);
+            match Buffer::from_bytes(Path::new("x.ans"), true, &bytes) {
+                Ok(b) => obs_loaded(&mut v, &b),
+                Err(e) => return Some(Err(format!("load:{e}"))),
+            }
+        }
+        "c04chk" => {
+            let (buf, o) = build(args);
+            let lossless = o.lossles_output;
+            let bytes = match buf.to_bytes("ans", &o) {
+                Ok(b) => b,
+                Err(e) => return Some(Err(format!("save:{e}"))),
+            };
+            let b2 = match Buffer::from_bytes(Path::new("x.ans"), true, &bytes) {
+                Ok(b) => b,
+                Err(e) => return Some(Err(format!("load:{e}"))),
+            };
+            let (w, h) = (buf.get_width(), buf.get_height());
+            let mut bad = 0i64;
+            let mut first: Vec<i64> = Vec::new();
+            // Buffer::get_char outside either buffer yields the invisible default cell (blank, DOS 7 on 0, no blink):
+            // a row or column that exists on one side only has to be blank on the other
+            for y in 0..h.max(b2.get_height()) {
+                for x in 0..w.max(b2.get_width()) {
+                    let (inside_s, inside_d) = (true, true);
+                    let s = shown(&buf, x, y);
+                    let d = shown(&b2, x, y);
+                    let same_ch = s[0] == d[0] || (blank(s[0]) && blank(d[0]));
+                    let same_fg = s[1] == d[1] || (blank(s[0]) && inside_s && inside_d);
+                    let same_bg = s[2] == d[2] || (s[0] == 219 && !lossless && inside_s && inside_d);
+                    let same_bl = s[3] == d[3];
+                    if !(same_ch && same_fg && same_bg && same_bl) {
+                        if bad == 0 {
+                            first.push(x as i64);
+                            first.push(y as i64);
+                            first.extend(s);
+                            first.extend(d);
+                        }
+                        bad += 1;
+                    }
+                }
+            }
+            v.push(bad);
+            v.push(w as i64);
+            v.push(h as i64);
+            v.push(b2.get_width() as i64);
+            v.push(b2.get_height() as i64);
+            v.push(bytes.len() as i64);
+            for i in 0..3 {
+                v.push(bytes.get(i).map_or(-1, |b| *b as i64));
+            }
+            v.extend(first);
+        }
+        // glyph shapes of the default font as ColorOptimizer sees them, observed through its effect:
+        // 0 whitespace (foreground taken from the previous cell), 1 block (background taken), 2 mixed
+        "c04shapes" => {
+            for code in 0..256u32 {
+                let mut buf = Buffer::new((2, 1));
+                buf.layers[0].set_char((0, 0), AttributedChar::new('A', TextAttribute::new(1, 2)));
+                buf.layers[0].set_char((1, 0), AttributedChar::new(char::from_u32(code).unwrap(), TextAttribute::new(3, 4)));
+                let mut o = SaveOptions::new();
+                o.normalize_whitespaces = false;
+                let opt = icy_engine::ColorOptimizer::new(&buf, &o).optimize(&buf);
+                let a = opt.layers[0].get_char((1, 0)).attribute;
+                v.push(if a.get_foreground() == 1 {
+                    0
+                } else if a.get_background() == 2 {
+                    1
+                } else {
+                    2
+                });
+            }
+        }
+        // parse_next_number folded over a digit string
+        "c04num" => {
+            let mut x = 0i32;
+            for b in args[0].bytes() {
+                x = icy_engine::ansi::parse_next_number(x, b);
+            }
+            v.push(x as i64);
+        }
+        _ => return None,
+    }
+    Some(Ok(v))
 }
